@@ -112,6 +112,21 @@ pub fn mk_var(width: u8, reserved: u32, spc: u32, bps: u32, nib: u32, name: &str
     vol::cfg_from(name, b.finish(), Some(cands))
 }
 
+/// FAT16 builder volume with another sector size and root size
+pub fn mk_geo16(bps: u32, root_entries: u32, clusters: u64, name: &str) -> Cfg {
+    let mut s = MkSpec::new(16);
+    s.bps = bps;
+    s.root_entries = root_entries;
+    s.clusters = clusters;
+    s.reserved = 4;
+    s.tail = 64 * 1024;
+    let mut b = Builder::new(s);
+    let last = b.geo.max_cluster();
+    let keep: Vec<u32> = vec![2, 3, 4, 5, 6, last - 1, last];
+    b.ballast(&keep);
+    vol::cfg_from(name, b.finish(), Some(keep))
+}
+
 pub fn specs(tier: &str) -> Vec<ExpSpec> {
     let th = is_thorough(tier);
     let mut cfgs = Vec::new();
@@ -134,15 +149,72 @@ pub fn specs(tier: &str) -> Vec<ExpSpec> {
     cfgs.push((mk_var(32, 32, 1, 512, 0xA, "b32-nibbleA-eoclow-tail"), 512));
     cfgs.push((mk(12, 1, 4, 3, "b12-spc4-slack3-tail"), 2048));
     cfgs.push((mk(32, 32, 8, 7, "b32-spc8-slack7-tail"), 4096));
+    // FAT16 with 4096-byte sectors and the usual 512-entry root (4 root sectors: the data area starts behind them)
+    cfgs.push((mk_geo16(4096, 512, 5000, "b16-bps4096-root512-tail"), 4096));
+    // FAT32 with the information sector in sector 2 and the backup boot sector in sector 8
+    {
+        let mut s = MkSpec::new(32);
+        s.reserved = 32;
+        s.fsinfo_sector = 2;
+        s.backup_sector = 8;
+        s.tail = 64 * 1024;
+        let mut b = Builder::new(s);
+        let last = b.geo.max_cluster();
+        let keep: Vec<u32> = vec![3, 4, 5, 6, 7, last - 1, last];
+        b.ballast(&keep);
+        b.set_fsinfo(keep.len() as u32, 0xFFFF_FFFF);
+        let mut cands = keep.clone();
+        cands.push(2);
+        cfgs.push((vol::cfg_from("b32-fsinfo2-backup8-tail", b.finish(), Some(cands)), 512));
+    }
+    // FAT32 whose free clusters all lie above 0xFFFF
+    cfgs.push((vol::t32_high(), 512));
+    let alpha_of = |cs: u32| {
+        let mut a = alpha::mixed(cs);
+        // dot entries as the target of remove / the source of rename
+        use harness::sess::DirRef;
+        a.push(Op::Remove { base: DirRef::Root, path: "d/.".into() });
+        a.push(Op::Rename { base: DirRef::Root, src: "d/.".into(), dst_base: DirRef::Root, dst: "e".into() });
+        a
+    };
     let mut v = Vec::new();
     for (c, cs) in cfgs {
         let slack = c.name.contains("slack");
-        v.push(ExpSpec::new(c.clone(), alpha::mixed(cs), if th { 5 } else if slack { 4 } else { 3 }));
+        v.push(ExpSpec::new(c.clone(), alpha_of(cs), if th { 5 } else if slack { 4 } else { 3 }));
         let mut c2 = c;
         c2.name = format!("{}-short", c2.name);
         c2.short = Short::Always;
-        v.push(ExpSpec::new(c2, alpha::mixed(cs), if th { 4 } else { 3 }));
+        v.push(ExpSpec::new(c2, alpha_of(cs), if th { 4 } else { 3 }));
     }
     v.extend(crate::c03::fragmented_dir_specs(th));
+    {
+        // a file truncated to nothing and closed, volume remounted (FAT12/16 forget the allocation hint): whatever still
+        // points at the freed chain on the storage is re-used by the next allocation; the same after the dot entry of
+        // /d was (not) moved out and /d removed
+        use harness::sess::{DirRef, SeekSpec};
+        let r = DirRef::Root;
+        for ft in [FatType::Fat12, FatType::Fat16] {
+            let mut c = vol::tiny_with(ft, 8, 16);
+            c.name = format!("{}-truncreuse", c.name);
+            let prefix = vec![
+                Op::CreateFile { base: r, path: "a".into(), keep: Some(0) },
+                Op::WriteAll { h: 0, len: 1025 },
+                Op::Seek { h: 0, pos: SeekSpec::Start(0) },
+                Op::Truncate { h: 0 },
+                Op::DropFile { h: 0 },
+                Op::Remount,
+            ];
+            v.push(ExpSpec::new(c, alpha::mixed(512), 3).with_prefix(prefix));
+            let mut c = vol::tiny_with(ft, 8, 16);
+            c.name = format!("{}-dotmove", c.name);
+            let prefix = vec![
+                Op::CreateDir { base: r, path: "d".into(), keep: None },
+                Op::Rename { base: r, src: "d/.".into(), dst_base: r, dst: "e".into() },
+                Op::Remove { base: r, path: "d".into() },
+                Op::Remount,
+            ];
+            v.push(ExpSpec::new(c, alpha::mixed(512), 2).with_prefix(prefix));
+        }
+    }
     v
 }
